@@ -1401,6 +1401,26 @@ def model_pure(ex, st, callee, args, ty):
     return m_ret(st, fresh_of_type(ty, st.sym, "p"))
 
 
+def model_slice_effect(ex, st, callee, args, ty):
+    """Slice operations that change cell contents but no lengths or offsets. `swap_with_slice` is modelled
+    precisely (an exchange of two ranges, panics on different lengths); the others are recorded as calls
+    (an over-approximation as far as contents go)."""
+    meth = callee.split("::")[-1]
+    if meth == "swap_with_slice" and len(args) == 2:
+        a, b = val_of(args[0]), val_of(args[1])
+        if isinstance(a, Slice) and isinstance(b, Slice):
+            s1 = st.fork()
+            s1.pc.append(f"(= {a.len} {b.len})")
+            s1.events.append(("swapn", a.off, b.off, a.len, f"(+ {a.off} {a.len})", f"(+ {b.off} {b.len})"))
+            s2 = st.fork()
+            s2.pc.append(f"(distinct {a.len} {b.len})")
+            s2.events.append(("panic", "destination and source slices have different lengths"))
+            return [(s1, Tup([]), "return", ""), (s2, None, "panic", "destination and source slices have different lengths")]
+    s = st.fork()
+    s.events.append(("call", callee))
+    return m_ret(s, fresh_of_type(ty, st.sym, "p"))
+
+
 STD_MODELS = [
     (r"^Arguments::<'_>::(from_str|new_const|new_v1|new)", model_pure),
     (r"^<usize as Ord>::cmp$", model_ord_cmp),
@@ -1410,7 +1430,7 @@ STD_MODELS = [
     (r"^<core::ops::Range<usize> as Iterator>::next$", model_range_iter("next")),
     (r"^<Rev<core::ops::Range<usize>> as Iterator>::next$", model_range_iter("next_back")),
     (r"slice::<impl \[.*\]>::copy_within::<", model_slice_copy_within),
-    (r"slice::<impl \[.*\]>::(copy_from_slice|clone_from_slice|swap_with_slice|rotate_left|rotate_right|reverse|swap)$", model_pure),
+    (r"slice::<impl \[.*\]>::(copy_from_slice|clone_from_slice|swap_with_slice|rotate_left|rotate_right|reverse|swap)$", model_slice_effect),
     (r"^core::mem::take::<", model_mem_take),
     (r"^core::mem::swap::<", model_mem_swap),
     (r"slice::<impl \[.*\]>::as_(mut_)?ptr$", model_as_ptr),
